@@ -17,6 +17,7 @@
 package trie
 
 import (
+	"errors"
 	"fmt"
 	"github.com/youchainhq/go-youchain/common"
 	"github.com/youchainhq/go-youchain/logging"
@@ -336,6 +337,11 @@ func (db *Database) node(hash common.Hash, cachegen uint16) node {
 // Node retrieves an encoded cached trie node from memory. If it cannot be found
 // cached, the method queries the persistent database for the content.
 func (db *Database) Node(hash common.Hash) ([]byte, error) {
+	// The zero hash is the key of the internal meta root, which only carries
+	// reference bookkeeping and has no encoding. It is never a stored node.
+	if hash == (common.Hash{}) {
+		return nil, errors.New("not found")
+	}
 	// Retrieve the node from cache if available
 	db.lock.RLock()
 	node := db.nodes[hash]
